@@ -26,6 +26,7 @@ import (
 	"net/url"
 	"sort"
 	"strconv"
+	"strings"
 
 	"github.com/pilosa/pilosa"
 	"github.com/pilosa/pilosa/encoding/proto"
@@ -964,10 +965,49 @@ func (c *InternalClient) ColumnAttrDiff(ctx context.Context, uri *pilosa.URI, in
 
 	// Decode response object.
 	var rsp postIndexAttrDiffResponse
-	if err := json.NewDecoder(resp.Body).Decode(&rsp); err != nil {
+	if err := decodeAttrDiff(resp.Body, &rsp); err != nil {
 		return nil, errors.Wrap(err, "decoding")
 	}
 	return rsp.Attrs, nil
+}
+
+// decodeAttrDiff decodes an attr diff response keeping the type of numeric
+// attribute values: a JSON number without fraction or exponent is an integer
+// attribute (decoding it into a float64 would also lose precision above
+// 2^53), any other number is a float.
+func decodeAttrDiff(r io.Reader, v interface{}) error {
+	dec := json.NewDecoder(r)
+	dec.UseNumber()
+	if err := dec.Decode(v); err != nil {
+		return err
+	}
+	var all map[uint64]map[string]interface{}
+	switch rsp := v.(type) {
+	case *postIndexAttrDiffResponse:
+		all = rsp.Attrs
+	case *postFieldAttrDiffResponse:
+		all = rsp.Attrs
+	}
+	for _, m := range all {
+		for k, val := range m {
+			n, ok := val.(json.Number)
+			if !ok {
+				continue
+			}
+			if !strings.ContainsAny(n.String(), ".eE") {
+				if i, err := n.Int64(); err == nil {
+					m[k] = i
+					continue
+				}
+			}
+			f, err := n.Float64()
+			if err != nil {
+				return err
+			}
+			m[k] = f
+		}
+	}
+	return nil
 }
 
 // RowAttrDiff returns data from differing blocks on a remote host.
@@ -1007,7 +1047,7 @@ func (c *InternalClient) RowAttrDiff(ctx context.Context, uri *pilosa.URI, index
 
 	// Decode response object.
 	var rsp postFieldAttrDiffResponse
-	if err := json.NewDecoder(resp.Body).Decode(&rsp); err != nil {
+	if err := decodeAttrDiff(resp.Body, &rsp); err != nil {
 		return nil, errors.Wrap(err, "decoding")
 	}
 	return rsp.Attrs, nil
